@@ -70,7 +70,31 @@ class C6_{k}(StateMachine):
     async def on_tick(self, *args, **kwargs):
         return await REC.arun("o", self, args, kwargs)
 '''
+INIT_SRC = '''
+class C6_{k}(StateMachine):
+    idle = State(initial=True)
+    s = State()
+    tick = idle.to(s) | s.to.itself()
+    async def on_enter_idle(self, *args, **kwargs):
+        return await REC.arun("e", self, args, kwargs)
+    async def before_tick(self, *args, **kwargs):
+        return await REC.arun("b", self, args, kwargs)
+    async def on_tick(self, *args, **kwargs):
+        return await REC.arun("o", self, args, kwargs)
+    async def after_tick(self, *args, **kwargs):
+        return await REC.arun("a", self, args, kwargs)
+'''
 _k = [0]
+
+
+def build_init(rec):
+    from statemachine import State, StateMachine
+
+    _k[0] += 1
+    src = INIT_SRC.format(k=_k[0])
+    ns = {"State": State, "StateMachine": StateMachine, "REC": rec, "__name__": "vmon_c06"}
+    exec(compile(src, "<c06i>", "exec"), ns)
+    return ns[f"C6_{_k[0]}"], src
 
 
 def build_guards(rec):
@@ -116,7 +140,7 @@ def check_anonymous(log, sent, returned_all, errors):
     return out
 
 
-def check_history(log, sent, returned_all, errors, anonymous=False):
+def check_history(log, sent, returned_all, errors, anonymous=False, expect_initial=False):
     """-> list of (mechanism, detail). log: recorder log; sent: {sender: [tok...]} in send order."""
     if anonymous:
         return check_anonymous(log, sent, returned_all, errors)
@@ -155,6 +179,12 @@ def check_history(log, sent, returned_all, errors, anonymous=False):
         starts = [first[t] for t in toks if t in first]
         if starts != sorted(starts):
             out.append(("sender-order", f"{sender}: tokens {toks} processed out of send order"))
+    if expect_initial:
+        got = count.get("__initial__", {})
+        if got != {"e": [1, 1]}:
+            out.append(("initial-not-exactly-once", f"initial activation ran callbacks {got}; expected the initial enter exactly once"))
+        elif any(first[t] < last["__initial__"] for t in first if t != "__initial__"):
+            out.append(("overlap", "an event's callbacks began before the initial activation had finished"))
     return out
 
 
@@ -187,7 +217,8 @@ def scripts(cfg):
     if cfg.get("guards"):
         return {"gs": {"ret": "none", "yields": cfg.get("yields", 2)}, "o": {"ret": "none", "yields": 1}}
     y = cfg.get("yields", 1)
-    sc = {"b": {"ret": "none"}, "o": {"ret": "none", "yields": y}, "a": {"ret": "none"}, "k": {"ret": "none", "yields": min(y, 1)}}
+    sc = {"b": {"ret": "none"}, "o": {"ret": "none", "yields": y}, "a": {"ret": "none"}, "k": {"ret": "none", "yields": min(y, 1)},
+          "e": {"ret": "none", "yields": cfg.get("init_yields", 2)}}
     if cfg.get("nested"):
         sc["o"]["sends"] = [{"event": "tock"}]
     if cfg.get("yield_after"):
@@ -309,7 +340,7 @@ def record_thread_run(cfg, bound, prefix, sched, rec, problems, src, counters, v
 
 # ------------------------------------------------------------------ asyncio
 async def _arun(cfg, prefix, rec):
-    cls, src = build_guards(rec) if cfg.get("guards") else build(rec, True)
+    cls, src = build_guards(rec) if cfg.get("guards") else (build_init(rec) if cfg.get("activator") else build(rec, True))
     gate = SA.Gate(prefix)
     rec.gate = gate
     sm = cls()
@@ -341,7 +372,17 @@ async def _arun(cfg, prefix, rec):
             if name == "A0":
                 a0_done.set()
 
+    async def activator():
+        # one task activates the initial state explicitly while the others already send events
+        try:
+            await gate.point("AI")
+            await sm.activate_initial_state()
+        except Exception as err:  # noqa: BLE001
+            errors["AI"] = f"{type(err).__name__}: {err}"
+
     tasks = [asyncio.create_task(sender(f"A{i}"), name=f"A{i}") for i in range(cfg["senders"])]
+    if cfg.get("activator"):
+        tasks.insert(cfg.get("activator_pos", 0), asyncio.create_task(activator(), name="AI"))
     stuck = None
     try:
         await asyncio.wait_for(gate.controller(tasks), 30)
@@ -364,7 +405,7 @@ def run_async_once(cfg, prefix):
     if cfg.get("guards"):
         problems = check_guard_history(rec.log, sent, errors)
     else:
-        problems = check_history(rec.log, sent, stuck is None, errors, cfg.get("anonymous"))
+        problems = check_history(rec.log, sent, stuck is None, errors, cfg.get("anonymous"), expect_initial=bool(cfg.get("activator")))
     if stuck:
         problems.append(("stuck", stuck))
     return gate, rec, problems, src
@@ -515,6 +556,9 @@ def plan(tier, seed):
         S.append({"kind": "asyncio-cancel", "cfg": {"senders": 2, "sends": 2, "yields": 1, "nested": True}})
         S.append({"kind": "asyncio", "cfg": {"senders": 2, "sends": 2, "yields": 2, "nested": True}, "shard": 0, "nshards": 1})
         S.append({"kind": "asyncio", "cfg": {"senders": 2, "sends": 2, "yields": 2, "activate_first": False}, "shard": 0, "nshards": 1})
+        # explicit activate_initial_state() in one task (initial enter suspends) racing with senders
+        S.append({"kind": "asyncio", "cfg": {"senders": 1, "sends": 2, "yields": 1, "activator": True, "activate_first": False, "init_yields": 2}, "shard": 0, "nshards": 1})
+        S.append({"kind": "asyncio", "cfg": {"senders": 2, "sends": 1, "yields": 1, "activator": True, "activator_pos": 1, "activate_first": False, "init_yields": 2}, "shard": 0, "nshards": 1})
         for i in range(2):
             S.append({"kind": "asyncio", "cfg": {"senders": 3, "sends": 1, "yields": 2, "nested": True}, "shard": i, "nshards": 2})
         for i in range(2):
@@ -550,6 +594,8 @@ def plan(tier, seed):
         for i in range(4):
             S.append({"kind": "asyncio", "cfg": {"senders": 3, "sends": 3, "yields": 2, "nested": True}, "shard": i, "nshards": 4})
         S.append({"kind": "asyncio-cancel", "cfg": {"senders": 2, "sends": 3, "yields": 3, "yield_after": True, "nested": True}})
+        for i in range(2):
+            S.append({"kind": "asyncio", "cfg": {"senders": 2, "sends": 2, "yields": 2, "activator": True, "activator_pos": i, "activate_first": False, "init_yields": 3}, "shard": 0, "nshards": 1})
         for i in range(2):
             S.append({"kind": "asyncio", "cfg": {"senders": 3, "sends": 2, "yields": 2, "guards": True}, "shard": i, "nshards": 2})
         for i in range(4):
